@@ -10,7 +10,7 @@ from . import core
 from . import format_common as F
 from .core import Check, exc_code, h63_list
 
-IMPORTS = ["Base.Prelude", "Psd.Codec", "Psd.Model", "Psd.Leaf", "Psd.Descriptor", "Psd.Effects", "Psd.Corr"]
+IMPORTS = ["Base.Prelude", "Psd.Codec", "Psd.Model", "Psd.Leaf", "Psd.Descriptor", "Psd.Effects", "Psd.Patterns", "Psd.Corr"]
 KINDS = ["header", "cmd", "res", "resources", "tb", "tbs", "mask", "ranges", "rec", "li", "glmi", "lami", "img", "psd"]
 FIXTURES = os.path.join(core.REPO, "tests", "psd_files")
 
@@ -658,6 +658,51 @@ def run():
     for i in bad[:5]:
         ck.notes.append("effects layer model/implementation differ on %r: impl %r" % (ecases[i][0], ecases[i][1]))
 
+    # ---- (a5) Stage 2: Patterns (generated, and every Patterns payload found in the fixtures)
+    from psd_tools.psd import PSD
+    from psd_tools.psd.patterns import Patterns as _Patterns
+
+    pcases = []
+    plit = lambda l: F.coq_list(F.coq_pattern, l)
+
+    def one_patterns(l, origin):
+        out, info = F.run_patterns(l, exc_code)
+        if out is None:
+            ck.count("patterns-not-constructible")
+            return
+        pcases.append((l, out))
+        ck.count("patterns:" + origin)
+        if info["stage"] == "write":
+            return
+        ck.nontriv(("patt", h63_list(0, list(info["bytes"]))))
+        if info["written"] != len(info["bytes"]):
+            ck.fail("written-count-patterns", {"patterns": jdeep(l)[:3]}, info["written"], len(info["bytes"]))
+        if all(F.wf_pattern(p) for p in l):
+            if info["stage"] == "read" or not (info["eq"] and info["same_canon"]):
+                ck.fail("patterns-roundtrip", {"patterns": jdeep(l)[:3]},
+                        "raised %r" % info["err"] if info["stage"] else "re-read != original", "X.frombytes(x.tobytes()) == x")
+            elif not info["rewrite_same"]:
+                ck.fail("patterns-rewrite", {"patterns": jdeep(l)[:3]}, "re-written bytes differ", "identical bytes")
+
+    for i in range(2500 if thorough else 350):
+        one_patterns(F.g_patterns(rng), "generated")
+    nfp = 0
+    for pth in fixture_paths(1 << 40 if thorough else 300000):
+        try:
+            doc = PSD.frombytes(open(pth, "rb").read())
+        except Exception:
+            continue
+        tb = doc.layer_and_mask_information.tagged_blocks
+        for t in (tb.values() if tb is not None else []):
+            if isinstance(t.data, _Patterns) and nfp < (200 if thorough else 12):
+                l = [F.pattern_of_obj(p) for p in t.data]
+                if sum(len(F.coq_pattern(p)) for p in l) < 200000:
+                    one_patterns(l, "fixture")
+                    nfp += 1
+    bad = ck.correspond("patterns", "patterns_outcome", IMPORTS, pcases, plit, chunk=25)
+    for i in bad[:5]:
+        ck.notes.append("patterns model/implementation differ: impl %r" % (pcases[i][1],))
+
     # ---- (b) fixtures: implementation reads and re-writes; the model reads the same bytes
     from psd_tools.psd import PSD
 
@@ -790,7 +835,9 @@ def run():
                 "Class", "Class1", "Class2", "Class3", "String", "EnumeratedReference", "Offset", "Bool", "LargeInteger",
                 "Identifier", "Index", "Enumerated", "RawData", "Alias", "Path", "Name", "DescriptorBlock", "DescriptorBlock2",
                 # effects layer (Psd/Effects.v)
-                "EffectsLayer", "CommonStateInfo", "ShadowInfo", "OuterGlowInfo", "InnerGlowInfo", "BevelInfo", "SolidFillInfo"]
+                "EffectsLayer", "CommonStateInfo", "ShadowInfo", "OuterGlowInfo", "InnerGlowInfo", "BevelInfo", "SolidFillInfo",
+                # patterns (Psd/Patterns.v)
+                "Patterns", "Pattern", "VirtualMemoryArrayList", "VirtualMemoryArray"]
     all_classes = all_element_classes()
     oracle_only = sorted(k for k in covered if k.split(".")[-1] not in modelled)
     not_covered = sorted(c for c in all_classes if c not in covered and c not in NESTED and c.split(".")[-1] not in modelled)
